@@ -124,14 +124,14 @@ var specs = map[string]spec{
 	},
 	"C14": {
 		World: "e2e", Level: "exploration", QuickS: 40, ThoroughS: 900,
-		Rule: "cases = nbhttp.Engine + websocket.Upgrader in upgrade path {poller-driven (IOModNonBlocking), blocking with parser hand-over and asynchronous send queue (IOModBlocking), transferred to the poller (UpgradeAndTransferConnToPoller), hijacked from a net/http-style server and read by the connection's own HandleRead loop (the harness plays the std server: accept, http.ReadRequest, http.Hijacker)}; permessage-deflate in both directions in 30% of the cases; wss (llib TLS transformed, crypto/tls clients) in 20% of the cases except the std path x epoll mode x 1-2 pollers x executor pool of 2 / 4; 1-3 raw simulated clients perform the HTTP upgrade, then send 0-5 masked messages (optionally fragmented, optionally in one burst immediately after the 101) while 0-4 server goroutines per connection call WriteMessage concurrently with fragmentation by MaxWebsocketFramePayloadSize in {none,16,100,1000}; connections end by client close frame, client reset, application Close or stay open; oracle: callback log matches open-start open-end (msg-start k msg-end k)* [close] with no overlap, messages in wire order exactly once (prefix if the connection ended early), close exactly once when the connection ended; the frame stream seen by the peer decodes (independent codec) into whole messages, fragments of one message contiguous, every WriteMessage that returned nil exactly once on a surviving connection, nothing from another connection; non-trivial = >= 2 concurrent writers on a connection or a close raced a callback / writer; 10% of the connections have one message callback that panics when it is done (later messages and the close callback must still come); one end kind in six is a frame with a reserved opcode after the messages: the connection must be failed and closed exactly once on every path",
-		Real: []string{"nbhttp.Engine, websocket.Upgrader / Conn (all engine upgrade paths and HandleRead), compression, nbio core, taskpool, llib std/crypto/tls (transformed real code)"},
+		Rule: "cases = nbhttp.Engine + websocket.Upgrader in upgrade path {poller-driven (IOModNonBlocking), blocking with parser hand-over and asynchronous send queue (IOModBlocking), transferred to the poller (UpgradeAndTransferConnToPoller), hijacked from a net/http-style server and read by the connection's own HandleRead loop (the harness plays the std server: accept, http.ReadRequest, http.Hijacker)}; permessage-deflate in both directions in 30% of the cases; wss (llib TLS transformed, crypto/tls clients) in 20% of the cases except the std path x epoll mode x 1-2 pollers x executor pool of 2 / 4; 1-3 raw simulated clients perform the HTTP upgrade, then send 0-5 masked messages (optionally fragmented, optionally in one burst immediately after the 101) while 0-4 server goroutines per connection call WriteMessage concurrently with fragmentation by MaxWebsocketFramePayloadSize in {none,16,100,1000}; connections end by client close frame, client reset, application Close or stay open; oracle: callback log matches open-start open-end (msg-start k msg-end k)* [close] with no overlap, messages in wire order exactly once (prefix if the connection ended early), close exactly once when the connection ended; the frame stream seen by the peer decodes (independent codec) into whole messages, fragments of one message contiguous, every WriteMessage that returned nil exactly once on a surviving connection, nothing from another connection; non-trivial = >= 2 concurrent writers on a connection or a close raced a callback / writer; 10% of the connections have one message callback that panics when it is done (later messages and the close callback must still come); one end kind in six is a frame with a reserved opcode after the messages: the connection must be failed and closed exactly once on every path. One run index in five (part dialer) has nbio on both ends: 1-3 connections made by websocket.Dialer (sync result or result handler; own client engine or the serving engine; default or goroutine-per-task ClientExecutor; DialTimeout 0 / 2 s; ws or wss with llib TLS 1.2 on both ends) to an nbhttp server (non-blocking or blocking) with an Upgrader; 0-3 messages written inside either open callback (the server's travel with the 101), 0-3 concurrent writers on EACH side, ended by Close / WriteClose from either side after everything arrived, by an early Close from either side, or not at all; oracles on BOTH endpoints: the callback grammar above, every delivered message is one written message, per-writer order, nothing twice, nothing lost unless the connection was ended early, exactly one close callback per endpoint (none while the connection lives), the result of Dial is delivered once, after the client's open callback has completed, with that connection",
+		Real: []string{"nbhttp.Engine, websocket.Upgrader / Conn (all engine upgrade paths and HandleRead), websocket.Dialer + nbhttp.ClientConn (dialer part), compression, nbio core, taskpool, llib std/crypto/tls (transformed real code)"},
 		Stub: append([]string{"net/http.Server for the std path: played by the harness (accept, ReadRequest, Hijacker)", "TLS clients: the standard library's crypto/tls (untransformed)"}, stubKernel...),
 		Assumptions: append([]string{"the simulated client is compliant: it sends data frames only after it has received the complete 101 response, possibly immediately", "FIFO of the asynchronous send queue is judged from the peer's side (whole messages, per-writer order), not with a separate porcupine model"}, assumeKernel...),
 	},
 	"C11": {
 		World: "e2e", Level: "exploration", QuickS: 40, ThoroughS: 900,
-		Rule: "the primary oracle is the ownership-tracking allocator installed as mempool.DefaultMemPool and as the engine's BodyAllocator: Free/Append/AppendString/Realloc on a freed or foreign buffer, second Free, write into a quarantined (poisoned, never recycled) buffer, poison in parser output or in the parser's carry-over buffer when the input has no such byte (read after free), poison on the wire. Half of the cases are single-threaded (stream scenarios): the C09 handler programs (half with transport write failures, biased to 64KiB-crossing writes), the C12 round trips (40% with sender transport failures), the C13 byzantine frame sequences, the C08 corrupted request streams through ServerProcessor/BodyReader, the C15 limit scenarios and pipelined messages in 32 random segmentations each; one run index in sixteen is a C01 outbound scenario (core engine write queue) with the tracker as mempool.DefaultMemPool and an OnWrittenSize hook that looks for poison in the bytes it is given. The other half are the close races: the C14 WebSocket scenarios (all five upgrade paths, concurrent writers, send queue, compression, resets, application close) and the C10 HTTP server scenarios (pipelining, Flush, split writes, closing exchanges) on the simulated kernel under the seeded scheduler, with the same trackers; non-trivial = at least 3 buffers were returned to the allocators in the run; distinct = fingerprint of the underlying case / schedule",
+		Rule: "the primary oracle is the ownership-tracking allocator installed as mempool.DefaultMemPool and as the engine's BodyAllocator: Free/Append/AppendString/Realloc on a freed or foreign buffer, second Free, write into a quarantined (poisoned, never recycled) buffer, poison in parser output or in the parser's carry-over buffer when the input has no such byte (read after free), poison on the wire. Half of the cases are single-threaded (stream scenarios): the C09 handler programs (half with transport write failures, biased to 64KiB-crossing writes), the C12 round trips (40% with sender transport failures), the C13 byzantine frame sequences, the C08 corrupted request streams through ServerProcessor/BodyReader, the C15 limit scenarios and pipelined messages in 32 random segmentations each; one run index in sixteen is a C01 outbound scenario (core engine write queue) with the tracker as mempool.DefaultMemPool and an OnWrittenSize hook that looks for poison in the bytes it is given. The other half are the close races: the C14 WebSocket scenarios (all five upgrade paths, concurrent writers, send queue, compression, resets, application close) the C10 HTTP server scenarios (pipelining, Flush, split writes, closing exchanges), and in one run index in sixteen each the C10 client scenarios (nbhttp.Client / ClientConn against the scripted server) and the C14 dialer scenarios (websocket.Dialer against the Upgrader), on the simulated kernel under the seeded scheduler, with the same trackers; non-trivial = at least 3 buffers were returned to the allocators in the run; distinct = fingerprint of the underlying case / schedule",
 		Real: []string{"nbhttp.Response / Parser / BodyReader / ServerProcessor, websocket.Conn, nbhttp.Engine, nbio.Engine / Conn write queue (transformed real code)"},
 		Stub: append([]string{"allocators: ownership tracker (the seam is the public mempool.Allocator interface); it never recycles memory, so the pool's own reuse policy is not part of these runs (C20 covers it)", "transport: in-memory connections with write-failure injection (stream scenarios), simulated kernel (e2e scenarios)"}, stubCommon...),
 		Assumptions: append([]string{"leaks (buffers never returned) are counted as a probe only; the property does not demand their absence",
